@@ -1651,12 +1651,15 @@ PROPS = {
                     "full, singletons, pairs (sampled in quick), random) × random member values incl. both attestation "
                     "statement shapes and the four COSE key kinds",
             "assumptions": ["make_credential::UnsignedExtensionOutputs cannot be constructed outside the crate: always unset"]},
-    "C03": {"ns": "C03", "cases": cases_c03, "uses": ["e1", "canon_toC", "allKeysGt_toC", "canon_cCose"],
+    "C03": {"ns": "C03", "cases": cases_c03, "uses": ["e1", "canon_toC", "allKeysGt_toC", "canon_cCose", "keyLt_wire", "canon_wireCanon", "deepKeys_toC", "ctapLt_encHead"],
             "level_text": "Proof. E1 (Ctap/Canon.lean): for every schema and every serialisable value the serializer model writes "
                           "exactly encC (toC t v), the shortest-form definite-length encoding of one item of a universe that has "
                           "no tags, floats, undefined or indefinite lengths. G-CANON (canon_toC): if every PAIR of serialisable "
                           "members of every struct of the schema is declared in CTAP2 canonical key order (sortedKeys — the "
                           "property's own sufficiency argument, proved: allKeysGt_toC), then for every subset of present members "
+                          "[and G-ORDER (Ctap/KeyOrder.lean, keyLt_wire / canon_wireCanon): that key order IS the CTAP2 rule on "
+                          "the encoded key bytes — major type, then length, then bytewise — for shortest-form integer, "
+                          "byte-string and text keys, so at every depth the encoded keys are strictly increasing on the wire] "
                           "and every nesting level the item's map keys are strictly increasing (hence distinct); COSE keys 1,3,-1,"
                           "-2,-3 are canonical for all four kinds. Obligations (decide +kernel): sortedKeys holds for all 6 "
                           "response schemas, both authenticator-data extension maps and the 3 serialisable requests, in all 8 "
